@@ -63,6 +63,8 @@ def run(facts, rep, ctx):
                 if term[0] == "discr" and term[1][0] == "call" and term[1][1].endswith("Iterator>::next"):
                     nxt = (term[1], (vals == (1,)) != neg)
             if nxt is None:
+                if p.end == "ret" and is_err_term(p.ret) is not True:
+                    bad2 = "a path returns %s without passing the de-duplicating, sorted accumulation (shortcut before the layer loop)" % fmt(p.ret)[:70]
                 continue
             ncall, some = nxt
             adaptors, root = iteration_source(ncall)
